@@ -99,7 +99,14 @@ pub struct Events {
 
 thread_local! {
     static EV: RefCell<Events> = RefCell::new(Events::default());
+    /// Mirror of the crate's constant-time TEST mode for the two rejection samplers (used only to
+    /// predict which RNG outputs drive rare events inside dudect_keygen_sign_with_rng; never an oracle
+    /// for FIPS 204 behaviour).
+    static CTEST: std::cell::Cell<bool> = const { std::cell::Cell::new(false) };
 }
+
+pub fn set_ctest(on: bool) { CTEST.with(|c| c.set(on)); }
+fn ctest() -> bool { CTEST.with(|c| c.get()) }
 
 pub fn events_reset() { EV.with(|e| *e.borrow_mut() = Events::default()); }
 pub fn events_take() -> Events { EV.with(|e| std::mem::take(&mut *e.borrow_mut())) }
@@ -213,6 +220,9 @@ pub fn coeff_from_three_bytes(b0: u8, b1: u8, b2: u8) -> Option<i64> {
     if b2p > 127 {
         b2p -= 128;
     }
+    if ctest() {
+        b2p &= 0x3F;
+    }
     let z = 65536 * b2p + 256 * i64::from(b1) + i64::from(b0);
     ev(|e| {
         e.three_byte_samples += 1;
@@ -238,7 +248,7 @@ pub fn coeff_from_three_bytes(b0: u8, b1: u8, b2: u8) -> Option<i64> {
 pub fn coeff_from_half_byte(b: u8, eta: i64) -> Option<i64> {
     assert!(b < 16);
     ev(|e| e.half_byte_samples += 1);
-    let b = i64::from(b);
+    let b = i64::from(if ctest() { b & 7 } else { b });
     if eta == 2 && b < 15 {
         return Some(2 - (b % 5));
     }
